@@ -52,7 +52,7 @@ def batch_result(sid):
             rer = re.search(r"re-running regressed stable tests individually.*?\n(.*)$", t, re.S)
             return {"batch_log": b.name, "seeds_applied_together": head.split("seeds")[1].split(" on ")[0].split() if "seeds" in head else [],
                     "stable_pass_total": int(m.group(1)) if m else None, "stable_pass_passed": int(m.group(2)) if m else None,
-                    "rerun_of_regressed_tests": rer.group(1).strip().splitlines()[-1] if rer else None}
+                    "rerun_of_regressed_tests": (rer.group(1).strip().splitlines() or [None])[-1] if rer else None}
     return None
 
 
@@ -74,7 +74,7 @@ def main():
             "produced_by": "independent sub-agent given only the property text and a scratch worktree (see notes.md)",
             "files": {"patch": "patch.diff", "demonstration": "demo.py", "agent_notes": "notes.md", "confirmation_log": "confirm.log"},
             "confirmed_by_us": {
-                "command": f"mc/confirm_seed.sh {sid}",
+                "command": f"mc/confirm_demo.sh {sid}  (demo with / without the change, scratch copies) + mc/confirm_batch.sh (repository test suite on a scratch copy with the batch of seeds named under repo_tests)",
                 "demo_exit_with_change": int(m1.group(1)) if m1 else None,
                 "demo_exit_without_change": int(m2.group(1)) if m2 else None,
                 "repo_tests": batch_result(sid),
